@@ -2,3 +2,11 @@
 from contracts import C05_gc  # noqa: F401  (registers the C07 units)
 
 META = dict(C05_gc.META)
+
+# the collector's reachability rests on the manifest readers failing closed (T-codec was a trusted assumption; the readers' own
+# Avro-then-JSON fallback is verified by the C14 units, re-run here)
+from contracts import C14_reads as _c14  # noqa: E402
+from pyvc.runner import Unit as _Unit, register as _register  # noqa: E402
+for _w in ("manifest", "list"):
+    _register(_Unit("C07", f"READERS/read_manifest_{'file' if _w == 'manifest' else 'list_file'}-fallback", _c14.h_reader_fallback(_w),
+                    functions=[f"file_manager:FileManager.read_manifest_{'file' if _w == 'manifest' else 'list_file'}"], replay=_c14._replay_fallback))
